@@ -3,22 +3,7 @@
 import json, os
 V = os.path.dirname(os.path.dirname(os.path.abspath(__file__)))
 ALL = [f"C{i:02d}" for i in range(1, 21)]
-CLAIMED = {
-    "C01": dict(
-        text="Lean 4 theorems: the two-way incidence/attribute-record invariant WF is preserved by every modelled public mutator "
-             "(returning or raising) and hence holds after every finite history and every prefix; tied to /repo by a step-by-step "
-             "correspondence check of the model against xgi.Hypergraph and by evaluating the invariant itself on the real object after every call.",
-        note="Trusted: Lean kernel + propext/Classical.choice/Quot.sound; hand-written model HG.lean (modelled, not verified) whose agreement "
-             "with the code is differential (generated histories); set-iteration order and random.sample results are oracles; IDs int/str/tuple/None.",
-        technique="Lean 4 invariant proof by induction over op histories + model/implementation correspondence",
-        design="§6 C01"),
-    "C05": dict(
-        text="The Lean model is the executable transcription of the documented effects; declarative effect theorems are proved about it, and the "
-             "implementation is compared with it on the full snapshot after every call of generated histories (a disagreement is the failing history).",
-        note="Trusted: as C01. Currently covers the undirected Hypergraph alphabet; attribute key order not compared.",
-        technique="Lean 4 effect theorems on an executable spec + step-by-step refinement check",
-        design="§6 C05"),
-}
+CLAIMED = {}
 import glob
 READY = open(os.path.join(V, "harness", "props", "READY")).read().split()   # properties whose checks are integrated
 for f in sorted(glob.glob(os.path.join(V, "harness", "props", "*.manifest.json"))):
